@@ -179,8 +179,12 @@ func RunPool(sc PoolScenario, prefix []int) *PoolResult {
 		gen   int // successful dials when the goroutine parked
 	}
 	var yields []*parkedYield
+	var armed atomic.Bool
 	if len(sc.Yields) > 0 {
 		vyield.Hook = func(label string) {
+			if !armed.Load() {
+				return // the pool is still being set up (first dial): nobody could resume a parked goroutine
+			}
 			ok := false
 			for _, fn := range sc.Yields {
 				if strings.HasPrefix(label, fn+":") {
@@ -209,6 +213,8 @@ func RunPool(sc PoolScenario, prefix []int) *PoolResult {
 	}
 	defer batched.VerifForget(sock)
 
+	synctest.Wait()
+	armed.Store(true)
 	callers := append([]wire.Op{}, sc.Callers...)
 	n := len(callers)
 	res.Results = make([]HRes, n+1)
